@@ -92,21 +92,31 @@ Section SPEC.
     end.
 End SPEC.
 
-(* the loader's own result, listed the same way: from the final state *)
-Fixpoint observe (fuel : nat) (s : lstate) (prefix : list string) (inst : N) (path : list string) (nd : node) (hops : nat) : list (list string * option N) :=
+(* the loader's own result, listed the same way: from the final state.  A stored value is seen
+   through the Go type of the position that refers to it: when an object of another kind was decoded
+   there (a whole file read as whatever the position expects), only the members that type has exist *)
+Definition shown (k : kind) : list string :=
+  match k with
+  | KParameter | KHeader => ["content"; "schema"; "examples"]
+  | KMedia | KMediaP => ["examples"; "schema"]
+  | _ => walked k
+  end.
+Fixpoint observe (fuel : nat) (s : lstate) (prefix : list string) (inst : N) (path : list string) (nd : node) (k : kind) (hops : nat) : list (list string * option N) :=
   match fuel with
   | O => []
   | S fuel' =>
       match nd with
       | NObj _ kids =>
-          flat_map (fun x => match x with (c, key, _, child) =>
-                      observe fuel' s (prefix ++ [label c key]) inst (path ++ [label c key]) child hops end) kids
+          flat_map (fun x => match x with (c, key, k', child) =>
+                      if str_in c (shown k) then
+                        observe fuel' s (prefix ++ [label c key]) inst (path ++ [label c key]) child k' hops
+                      else [] end) kids
       | NRef _ =>
           match val_of (inst, path) (vals s) with
           | None => [(prefix, None)]
           | Some v =>
               (prefix, id_of (tv_node v)) ::
-              match hops with O => [] | S h => observe fuel' s (prefix ++ ["->"]) (tv_inst v) (tv_path v) (tv_node v) h end
+              match hops with O => [] | S h => observe fuel' s (prefix ++ ["->"]) (tv_inst v) (tv_path v) (tv_node v) k h end
           end
       end
   end.
